@@ -8,6 +8,7 @@ import (
 	. "github.com/flant/shell-operator/pkg/hook/task_metadata"
 	"github.com/flant/shell-operator/pkg/task"
 	"github.com/flant/shell-operator/pkg/task/queue"
+	"github.com/flant/shell-operator/pkg/utils/verifsched"
 )
 
 type CombineResult struct {
@@ -66,6 +67,7 @@ func (op *ShellOperator) combineBindingContextForHook(tqs *queue.TaskQueueSet, q
 			otherTasks = append(otherTasks, tsk)
 		}
 	})
+	verifsched.Point("combine.afterIterate", t.GetQueueName())
 
 	// no tasks found to combine
 	if len(otherTasks) == 0 {
